@@ -156,6 +156,29 @@ def _run(case, mirror, fee_obj=None):
         cash = b.portfolios[p].cash - cash0[p]
         if abs(cash - float(-spent[p])) > 1e-9 * max(1.0, float(gross[p]), abs(cash0[p])):
             raise Violation('cash of %s after the fills %r != -(price*qty + commission) = %r' % (p, cash, float(-spent[p])))
+    if case.get('second_round') and not case.get('via_exec'):
+        # the same Order objects (so the same order ids) are submitted once more and filled by a later update at the
+        # same quotes: every fill is charged like the first one
+        t2 = t1 + pd.Timedelta(minutes=1)
+        for (a, qty, bid, ask, pid, ocomm) in orders:
+            table[(t2, a)] = (bid, ask)
+        n0 = len(log)
+        first = {}
+        for tpid, txn in log:
+            first[txn.order_id] = txn
+        for pid, od in built:
+            b.submit_order(pid, od)
+        b.update(t2)
+        for tpid, txn in log[n0:]:
+            f0 = first.get(txn.order_id)
+            if f0 is None or txn.price != f0.price or txn.quantity != f0.quantity:
+                raise Violation('a re-submitted order filled as (%r, %r); the first time as (%r, %r)' % (
+                    txn.quantity, txn.price, getattr(f0, 'quantity', None), getattr(f0, 'price', None)))
+            if abs(txn.commission - f0.commission) > 1e-9 * max(1.0, abs(f0.commission)):
+                raise Violation('order %s x %r filled again at the same quote is charged %r; the first time %r' % (
+                    txn.asset, txn.quantity, txn.commission, f0.commission))
+        if len(log) - n0 != len(built):
+            raise Inconclusive('expected %d fills in the second round, saw %d' % (len(built), len(log) - n0))
     return out, rate
 
 
@@ -211,6 +234,8 @@ def run_case(case):
                 cls.append('order_crosses_through_flat')
     if case.get('via_exec'):
         cls.append('through_execution_handler')
+    elif case.get('second_round'):
+        cls.append('same_orders_filled_a_second_time')
     if case.get('retune') and isinstance(case['fee'], list):
         cls.append('fee_rates_reassigned_on_live_model')
     if any(o.get('order_commission') for o in case['orders']):
@@ -270,7 +295,7 @@ def cases(draw):
             m = max(1, abs(o['qty']) // 2)
             prior.append({0: 0, 1: -m if o['qty'] > 0 else m, 2: -(abs(o['qty']) + 3) if o['qty'] > 0 else abs(o['qty']) + 3,
                           3: 5 if o['qty'] > 0 else -5}[k])
-    return {'retune': draw(st.sampled_from([0, 0, 1, 2, 3])), 'prior': prior, 'via_exec': draw(st.sampled_from([False, False, True])), 'swap_fee': swap, 't_submit': [t0.year, t0.month, t0.day, t0.hour, t0.minute, t0.second],
+    return {'second_round': draw(st.sampled_from([False, False, True])), 'retune': draw(st.sampled_from([0, 0, 1, 2, 3])), 'prior': prior, 'via_exec': draw(st.sampled_from([False, False, True])), 'swap_fee': swap, 't_submit': [t0.year, t0.month, t0.day, t0.hour, t0.minute, t0.second],
             't_update': [t1.year, t1.month, t1.day, t1.hour, t1.minute, t1.second],
             'orders': orders, 'fee': fee}
 
